@@ -20,6 +20,7 @@ from .values import (
     B,
     I,
     ListObj,
+    MapObj,
     Opaque,
     OutOfSubset,
     RecordObj,
@@ -38,6 +39,7 @@ from .values import (
     VPy,
     VPyFunc,
     VRef,
+    VCharSet,
     VSlice,
     VSpecFn,
     VStr,
@@ -48,6 +50,7 @@ from .values import (
     py_count,
     py_isspace,
     py_repeat,
+    py_chars_subset,
     py_lstrip,
     py_rstrip,
     py_strip,
@@ -59,7 +62,7 @@ EMPTY = z3.StringVal("")
 SPEC_FUNCS = (
     "joined old count n_count first_start last_end chain_ok span_ok joined_values "
     "implies is_none appended length seq_of at unchanged strip lstrip rstrip isspace "
-    "startswith endswith contains substr ite same present is_ctor or_empty field"
+    "startswith endswith contains substr ite same present is_ctor or_empty field refs_closed writes_only has_op declares_param defines chars_subset"
 ).split()
 
 
@@ -189,6 +192,10 @@ class Engine(object):
             return opaque_truthy(v.z)
         if isinstance(v, VPy):
             return z3.BoolVal(bool(v.obj))
+        if isinstance(v, VCharSet):
+            if v.diff_of is not None:
+                return z3.Not(py_chars_subset(v.diff_of[0], v.diff_of[1]))
+            return v.z != EMPTY
         if isinstance(v, (VCtor, VNode, VFunc, VPartial, VContractFn, VPyFunc, VBuiltin)):
             return z3.BoolVal(True)
         raise Unsupported("truthiness of %r" % (v,))
@@ -276,6 +283,8 @@ class Engine(object):
             )
         if kind == "ctor":
             return VCtor(None, None)
+        if kind == "map" and st is not None:
+            return st.alloc(MapObj())
         if isinstance(kind, (tuple, list)) and st is not None:
             return VTuple([self.fresh_value(k, "%s[%d]" % (name, i), st) for i, k in enumerate(kind)])
         if isinstance(kind, str) and kind.startswith("list:seq:") and st is not None:
@@ -486,6 +495,8 @@ class Engine(object):
                     lo = ListObj.empty()
                     for v in vs:
                         lo = self.list_append(lo, v, s)
+                    if lo.kind == "opaque":
+                        lo.g["items"] = list(vs)  # a display of arbitrary values: the items are kept (JSON trees)
                     outs.append((s, s.alloc(lo)))
             return outs
         if isinstance(e, ast.Dict):
@@ -570,7 +581,7 @@ class Engine(object):
             qual = "%s:%s" % (mod, qn)
             if qual in self.contracts:
                 return VContractFn(qual)
-            if obj in (len, all, any, tuple, list, dict, filter, map, enumerate, isinstance, range, abs, bool, str, int, min, max, slice):
+            if obj in (len, all, any, tuple, list, dict, filter, map, enumerate, isinstance, range, abs, bool, str, int, min, max, slice, frozenset, set):
                 return VBuiltin(obj.__name__)
             if mod == "collections" and qn == "deque":
                 return VBuiltin("deque")
@@ -728,6 +739,9 @@ class Engine(object):
                 return VInt(a.z * b.z)
         if isinstance(a, VStr) and isinstance(b, VStr) and isinstance(op, ast.Add):
             return VStr(z3.Concat(a.z, b.z))
+        if isinstance(op, ast.Sub) and isinstance(a, VCharSet) and isinstance(b, VCharSet) and a.diff_of is None and b.diff_of is None:
+            self.assumptions.add("stdlib spec: frozenset(a) - frozenset(b) is empty iff every character of a occurs in b (uninterpreted py_chars_subset)")
+            return VCharSet(diff_of=(a.z, b.z))
         if isinstance(op, ast.Mult) and ((isinstance(a, VStr) and isinstance(b, VInt)) or (isinstance(a, VInt) and isinstance(b, VStr))):
             sv, nv = (a, b) if isinstance(a, VStr) else (b, a)
             r = py_repeat(sv.z, nv.z)
@@ -809,6 +823,12 @@ class Engine(object):
                 lo = None if isinstance(idx.lo, VNone) else idx.lo.z
                 hi = None if isinstance(idx.hi, VNone) else idx.hi.z
                 outs.append((s, VStr(self.py_slice(base.z, lo, hi))))
+                continue
+            if isinstance(base, VRef) and isinstance(s.heap[base.rid], MapObj) and isinstance(idx, VStr):
+                hit = [v_ for k_, v_ in s.heap[base.rid].entries if k_.eq(idx.z)]
+                if not hit:
+                    raise Unsupported("read of a symbolic-key map entry that was not written in this function")
+                outs.append((s, hit[-1]))
                 continue
             if isinstance(base, VRef):
                 o = s.heap[base.rid]
@@ -1113,6 +1133,8 @@ class Engine(object):
             return [(st, st.alloc(RecordObj({k: (z3.BoolVal(True), v) for k, v in kwargs.items()})))]
         if name == "partial" and args:
             return [(st, VPartial(args[0], args[1:], kwargs))]
+        if name in ("frozenset", "set") and len(args) == 1 and isinstance(args[0], VStr):
+            return [(st, VCharSet(args[0].z))]
         if name == "slice" and len(args) == 2 and all(isinstance(a, (VInt, VNone)) for a in args):
             return [(st, VSlice(args[0], args[1]))]
         if name == "map" and len(args) == 2 and isinstance(args[1], VTuple) and isinstance(args[0], (VFunc, VPartial, VContractFn, VPyFunc)):
@@ -1408,6 +1430,10 @@ class Engine(object):
         if name == "is_none":
             c = self.equal(args[0], VNone(), st)
             return VBool(c if c is not None else z3.BoolVal(False))
+        if name in ("refs_closed", "writes_only", "has_op", "declares_param", "defines"):
+            return self.tree_spec(name, args, st)
+        if name == "chars_subset":
+            return VBool(py_chars_subset(args[0].z, args[1].z))
         if name == "field":
             r = st.heap[args[0].rid]
             k_ = args[1].z.as_string()
@@ -1452,6 +1478,90 @@ class Engine(object):
             k = args[1].z.as_string()
             return VBool(r.fields[k][0] if k in r.fields else z3.BoolVal(False))
         raise OutOfSubset("unknown spec function %s" % name)
+
+    # ------------------------------------------------------------------ JSON-tree specifications (C16)
+
+    def tree_leaves(self, v, st, key=None):
+        """Yield (key, value) for every leaf of a tree of records / lists / maps"""
+        if isinstance(v, VRef):
+            o = st.heap[v.rid]
+            if isinstance(o, RecordObj):
+                for k, (p, x) in o.fields.items():
+                    if z3.is_false(p):
+                        continue
+                    for leaf in self.tree_leaves(x, st, k):
+                        yield leaf
+                return
+            if isinstance(o, ListObj):
+                for x in o.g.get("items", []):
+                    for leaf in self.tree_leaves(x, st, key):
+                        yield leaf
+                return
+            if isinstance(o, MapObj):
+                for k_, x in o.entries:
+                    for leaf in self.tree_leaves(x, st, None):
+                        yield leaf
+                return
+        yield key, v
+
+    def tree_spec(self, name, args, st):
+        def mapobj(v):
+            o = st.heap[v.rid] if isinstance(v, VRef) else None
+            if not isinstance(o, MapObj):
+                raise OutOfSubset("%s expects a symbolic-key map" % name)
+            return o
+
+        if name == "refs_closed":
+            # refs_closed(paths, schemas_map, bodies_map): every "$ref" leaf written resolves to a component written here, or ServerError
+            paths, schemas, bodies = mapobj(args[0]), mapobj(args[1]), mapobj(args[2])
+            conj = []
+            n = 0
+            for root in (args[0], args[2]):
+                for k, leaf in self.tree_leaves(root, st):
+                    if k == "$ref":
+                        n += 1
+                        if not isinstance(leaf, VStr):
+                            conj.append(z3.BoolVal(False))
+                            continue
+                        alts = [leaf.z == z3.StringVal("#/components/schemas/ServerError")]
+                        alts += [leaf.z == z3.Concat(z3.StringVal("#/components/schemas/"), k_) for k_, _v in schemas.entries]
+                        alts += [leaf.z == z3.Concat(z3.StringVal("#/components/requestBodies/"), k_) for k_, _v in bodies.entries]
+                        conj.append(z3.Or(*alts))
+            self.covers.append(("refs-inspected", n > 0))
+            return VBool(z3.And(*conj) if conj else z3.BoolVal(True))
+        if name == "writes_only":
+            # writes_only(map, k1, k2, ...): every key written is one of the given strings
+            m = mapobj(args[0])
+            allowed = [a.z for a in args[1:]]
+            return VBool(z3.And(*[z3.Or(*[k_ == a for a in allowed]) if allowed else z3.BoolVal(False) for k_, _v in m.entries]) if m.entries else z3.BoolVal(True))
+        if name == "defines":
+            m = mapobj(args[0])
+            return VBool(z3.Or(*[k_ == args[1].z for k_, _v in m.entries]) if m.entries else z3.BoolVal(False))
+        if name == "has_op":
+            # has_op(paths, route, verb): the last write under `route` is a record that has key `verb`
+            m = mapobj(args[0])
+            verb = args[2].z.as_string()
+            alts = []
+            for i_, (k_, v_) in enumerate(m.entries):
+                o = st.heap[v_.rid] if isinstance(v_, VRef) else None
+                if isinstance(o, RecordObj) and verb in o.fields:
+                    later = [kk != args[1].z for kk, _vv in m.entries[i_ + 1:]]  # last write under this key wins
+                    alts.append(z3.And(k_ == args[1].z, o.fields[verb][0], *later))
+            return VBool(z3.Or(*alts) if alts else z3.BoolVal(False))
+        if name == "declares_param":
+            # declares_param(paths, route, id): the item written under `route` lists a path parameter named `id`
+            m = mapobj(args[0])
+            alts = []
+            for k_, v_ in m.entries:
+                o = st.heap[v_.rid] if isinstance(v_, VRef) else None
+                if isinstance(o, RecordObj) and "parameters" in o.fields:
+                    lst = st.heap[o.fields["parameters"][1].rid] if isinstance(o.fields["parameters"][1], VRef) else None
+                    for it in (lst.g.get("items", []) if isinstance(lst, ListObj) else []):
+                        r = st.heap[it.rid] if isinstance(it, VRef) else None
+                        if isinstance(r, RecordObj) and "name" in r.fields and isinstance(r.fields["name"][1], VStr) and "in" in r.fields:
+                            alts.append(z3.And(k_ == args[1].z, r.fields["name"][1].z == args[2].z, r.fields["in"][1].z == z3.StringVal("path")))
+            return VBool(z3.Or(*alts) if alts else z3.BoolVal(False))
+        raise OutOfSubset(name)
 
     def call_contract(self, qual, args, kwargs, st, e):
         c = self.contracts[qual]
@@ -1608,6 +1718,10 @@ class Engine(object):
         if isinstance(target, ast.Subscript) and not isinstance(target.slice, ast.Slice):
             outs = []
             for s, (base, idx) in self.eval_seq([target.value, target.slice], st):
+                if isinstance(base, VRef) and isinstance(s.heap[base.rid], MapObj) and isinstance(idx, VStr):
+                    s.heap[base.rid] = MapObj(s.heap[base.rid].entries + [(idx.z, v)])
+                    outs.append(s)
+                    continue
                 if isinstance(base, VRef):
                     o = s.heap[base.rid]
                     if isinstance(o, RecordObj) and isinstance(idx, VStr) and z3.is_string_value(idx.z):
